@@ -494,6 +494,7 @@ class ECU(UDSClient):
         except ResponseException as e:
             exception = e
             response = e.response
+            receive_time = datetime.now(UTC).astimezone()
             raise
         except Exception as e:
             exception = e
